@@ -77,6 +77,9 @@ def run(tier, replay=None):
         raise vlib.Infra("go build of mrg failed: " + pb.stdout[-1000:])
     plain = [x for x in rows if not x["split"]]
     sample_rows = rngm.sample(plain, min(len(plain), 60 if tier == "quick" else 600))
+    # ... and rows with an untyped map parameter whose stage lives in a file that declares no struct
+    untyped = [x for x in plain if any(q["t"]["b"] == "map" for q in x["params"]) and x not in sample_rows]
+    sample_rows += rngm.sample(untyped, min(len(untyped), 40 if tier == "quick" else 400))
     nmrg = 0
 
     def same_json(a, b):
@@ -93,7 +96,8 @@ def run(tier, replay=None):
     for x in sample_rows:
         d = os.path.join(mdir, x["id"])
         os.makedirs(d, exist_ok=True)
-        open(os.path.join(d, "s.mro"), "w").write(invcorpus.stage_src(x))
+        ssrc = invcorpus.stage_src(x, bare=(sum(map(ord, x["id"])) % 2 == 0 or any(q["t"]["b"] == "map" for q in x["params"])))
+        open(os.path.join(d, "s.mro"), "w").write(ssrc)
         args = {a["n"]: json.loads(invcorpus.untag_json(a["v"])) for a in x["args"]}
         sig = ", ".join("%s %s" % (invcorpus.type_str(q["t"]), q["n"]) for q in x["params"])
         for with_file in (True, False):
@@ -108,14 +112,14 @@ def run(tier, replay=None):
                                                           or '"fits": false' in json.dumps(x["args"])) else "mrg-fails"
                 viols.append({"key": "C16:%s:%s" % (kind, sig[:60]),
                               "what": "mrg (%s) fails on row %s, stage S(%s): %s" % (label, x["id"], sig, (p1.stderr or p1.stdout)[-300:].replace("\n", " ")),
-                              "replay": {"data.json": json.dumps(data), "s.mro": invcorpus.stage_src(x)}})
+                              "replay": {"data.json": json.dumps(data), "s.mro": ssrc}})
                 continue
             p2 = subprocess.run([mb, "--reverse"], input=p1.stdout, cwd=d, env=env, stdout=subprocess.PIPE, stderr=subprocess.PIPE, text=True, timeout=60)
             nmrg += 1
             if p2.returncode != 0:
                 viols.append({"key": "C16:mrg-text-rejected:%s" % sig[:60],
                               "what": "the call text mrg (%s) writes for row %s, stage S(%s), is rejected by mrg --reverse: %s" % (label, x["id"], sig, p2.stderr[-300:].replace("\n", " ")),
-                              "replay": {"data.json": json.dumps(data), "call.mro": p1.stdout, "s.mro": invcorpus.stage_src(x)}})
+                              "replay": {"data.json": json.dumps(data), "call.mro": p1.stdout, "s.mro": ssrc}})
                 continue
             back = json.loads(p2.stdout)
             # a parameter the data does not mention is written as null
